@@ -36,7 +36,7 @@ pub fn run<C: Suite>(ctx: &mut Ctx) {
     let slow = C::NAME == "ed448";
     let shapes_v: Vec<(u16, u16)> = match (ctx.quick(), slow) {
         (true, true) => vec![(3, 2), (3, 3)],
-        (true, false) => vec![(3, 2), (3, 3), (4, 2), (4, 3), (4, 4)],
+        (true, false) => vec![(3, 2), (3, 3), (4, 2), (4, 3), (4, 4), (5, 3), (5, 5)],
         (false, true) => shapes(4),
         (false, false) => shapes(6),
     };
@@ -45,7 +45,7 @@ pub fn run<C: Suite>(ctx: &mut Ctx) {
             continue;
         }
         for kind in ["default", "sparse-u16", "derived"] {
-            if ctx.quick() && kind != "default" && (n + t) % 2 == 0 {
+            if ctx.quick() && slow && kind != "default" && (n + t) % 2 == 0 {
                 continue;
             }
             if !ctx.item(&format!("n={n} t={t} ids={kind}")) {
